@@ -97,3 +97,87 @@ pub async fn abandon(port: u16, request: Vec<u8>, rst: bool, linger_us: u64) -> 
     drop(s);
     true
 }
+
+/// STALLED clients: connections that sent the beginning of a request - enough for the server to have started working
+/// on it - and then go quiet while staying open: a complete HTTP head with Content-Length and half of the body, a
+/// RESP array header and half of a bulk string, an HTTP/2 preface with SETTINGS and a partial HEADERS frame.
+/// Nothing here is a complete request: none of it may ever be counted or answered.
+pub struct Stalled {
+    socks: Vec<tokio::net::TcpStream>,
+    /// connections open per port (http, grpc, resp)
+    pub open: [usize; 3],
+}
+
+pub fn stalled_request(proto: &str, i: usize) -> Vec<u8> {
+    match proto {
+        "http" => {
+            let half = format!("{{\"key\":\"stalled-{i}\",\"max_burst\":5,");
+            format!("POST /throttle HTTP/1.1\r\nHost: x\r\nContent-Type: application/json\r\nContent-Length: {}\r\n\r\n{half}", half.len() * 2).into_bytes()
+        }
+        "grpc" => {
+            let mut v = b"PRI * HTTP/2.0\r\n\r\nSM\r\n\r\n".to_vec();
+            // an empty SETTINGS frame, then the 9-byte header of a HEADERS frame (stream 1) that promises 64 bytes, and 10 of them
+            v.extend_from_slice(&[0, 0, 0, 4, 0, 0, 0, 0, 0]);
+            v.extend_from_slice(&[0, 0, 64, 1, 4, 0, 0, 0, 1]);
+            v.extend_from_slice(&[0x83, 0x86, 0x44, 0x20, 0x62, 0x31, 0x62, 0x31, 0x62, 0x31]);
+            v
+        }
+        _ => format!("*5\r\n$8\r\nTHROTTLE\r\n$40\r\nstalled-{i}-half-of-").into_bytes(),
+    }
+}
+
+/// `per_port` stalled connections on each of the three ports (opened one after the other per port, 32 at a time, the
+/// three ports in parallel; a connection that cannot be opened within 3 s is left out)
+pub async fn open_stalled(http: u16, grpc: u16, resp: u16, per_port: usize) -> Stalled {
+    use tokio::io::AsyncWriteExt;
+    let mut tasks = vec![];
+    for (name, port) in [("http", http), ("grpc", grpc), ("resp", resp)] {
+        tasks.push(tokio::spawn(async move {
+            let t0 = std::time::Instant::now();
+            let mut socks = vec![];
+            for i in 0..per_port {
+                let Ok(Ok(mut s)) = tokio::time::timeout(Duration::from_secs(3), tokio::net::TcpStream::connect(("127.0.0.1", port))).await else {
+                    continue;
+                };
+                let _ = s.set_nodelay(true);
+                if s.write_all(&stalled_request(name, i)).await.is_ok() {
+                    socks.push(s);
+                }
+                // (paced: never more connections waiting to be accepted than the smallest listen backlog, 128, holds -
+                // a SYN that finds the queue full is only retransmitted a second later)
+                if i % 32 == 31 {
+                    tokio::time::sleep(Duration::from_millis(2)).await;
+                }
+            }
+            if std::env::var("TCV_DEBUG").is_ok() {
+                eprintln!("stalled {name}: {} open in {:?}", socks.len(), t0.elapsed());
+            }
+            socks
+        }));
+    }
+    let mut st = Stalled { socks: vec![], open: [0; 3] };
+    for (i, t) in tasks.into_iter().enumerate() {
+        if let Ok(v) = t.await {
+            st.open[i] = v.len();
+            st.socks.extend(v);
+        }
+    }
+    st
+}
+
+impl Stalled {
+    /// how many of them the server has closed on its own meanwhile (not an oracle: a server may shed idle clients)
+    pub fn closed_by_server(&self) -> usize {
+        let mut b = [0u8; 1];
+        self.socks.iter().filter(|s| matches!(s.try_read(&mut b), Ok(0))).count()
+    }
+    /// close them all: every other one with RST
+    pub fn close(self) {
+        for (i, s) in self.socks.into_iter().enumerate() {
+            if i % 2 == 1 {
+                set_abort_on_close(&s);
+            }
+            drop(s);
+        }
+    }
+}
